@@ -1216,3 +1216,23 @@ Proof.
   - exists (off s1 - length sig)%nat. split; [lia|exact E].
   - specialize (IH s1 rest C Ep). rewrite A in IH. exact IH.
 Qed.
+
+(** The multi-signature script determines the (sorted) key list and the threshold: two accepted
+    parameter sets that build the same script have the same sorted keys and the same m. *)
+Lemma multi_script_determines_keys deser :
+  (forall b, (length b <= 3)%nat -> deser b = None) ->
+  forall keys keys' m m' prog,
+  Forall (key_ok deser) keys -> Forall (key_ok deser) keys' ->
+  multi_params_ok m (Z.of_nat (length keys)) = true ->
+  multi_params_ok m' (Z.of_nat (length keys')) = true ->
+  program_from_multi_pubkey keys m = BOk prog -> program_from_multi_pubkey keys' m' = BOk prog ->
+  sort_keys keys = sort_keys keys' /\ m = m'.
+Proof.
+  intros Hd keys keys' m m' prog K K' P P' B B'.
+  destruct (parse_build_multi_proof deser Hd keys m K P) as [p1 [E1 G1]].
+  destruct (parse_build_multi_proof deser Hd keys' m' K' P') as [p2 [E2 G2]].
+  rewrite B in E1. injection E1 as <-. rewrite B' in E2. injection E2 as <-.
+  rewrite G1 in G2. injection G2 as Hs Hm.
+  apply multi_params_bounds in P. apply multi_params_bounds in P'.
+  split; [exact Hs|]. lia.
+Qed.
